@@ -106,11 +106,27 @@ impl<'a> System for Sys<'a> {
     }
 }
 
+/// continuations of more than one step: what only shows on the second screen, after a
+/// scroll there, after a restore
+fn conts_composite() -> Vec<String> {
+    vec![
+        "\x1b[?1047h1\r\n2\r\n3\r\n4\r\n5".into(),
+        "\x1b[?1049ha\n\n\n\nb\x1b[?1049lc".into(),
+        "\x1b[?47h\x1b[2;2Hx\x1bM\x1bM\x1bM".into(),
+        "\x1b8x\x1b[?1049h\x1b8y".into(),
+        "\ta\tb\x1b[3Ic\x1b[2Zd".into(),
+        "\x1b[?1047h\x1bc\x1b[?1047hq\n\n\n\n".into(),
+    ]
+}
 fn conts_full(cfg: &Cfg) -> Vec<String> {
-    a_11(cfg).into_iter().filter(|o| !o.is_resize()).map(|o| o.text).collect()
+    let mut v: Vec<String> = a_11(cfg).into_iter().filter(|o| !o.is_resize()).map(|o| o.text).collect();
+    v.extend(conts_composite());
+    v
 }
 fn conts_deep(cfg: &Cfg) -> Vec<String> {
-    a_11_deep(cfg).into_iter().filter(|o| !o.is_resize()).map(|o| o.text).collect()
+    let mut v: Vec<String> = a_11_deep(cfg).into_iter().filter(|o| !o.is_resize()).map(|o| o.text).collect();
+    v.extend(conts_composite());
+    v
 }
 
 macro_rules! parts {
@@ -458,6 +474,70 @@ fn heavy_history(ctx: &Ctx, rep: &mut Report) {
     println!("part heavy-history: {} (heavy input, ESC c, heavy input) pairs", total);
 }
 
+/// "a freshly built terminal of the current size ... reacts to every subsequent input exactly
+/// like the fresh one" - also to RESIZES: width chains w1 -> w2, ESC c, -> w3 against a fresh
+/// terminal of width w2 resized to w3 (tab stops by hook and by HT / CHT / CBT walks, dump()).
+fn reset_then_resize(ctx: &Ctx, rep: &mut Report) {
+    use rayon::prelude::*;
+    let n = ctx.tier.pick(34usize, 70usize);
+    let mut cases: Vec<(usize, usize, usize)> = vec![];
+    for a in 1..=n {
+        for b in 1..=n {
+            for c in 1..=n {
+                if ctx.tier == Tier::Thorough || (a + b + c) % 3 == 0 || (a % 8 <= 1 && b % 8 <= 1) || c % 8 <= 1 {
+                    cases.push((a, b, c));
+                }
+            }
+        }
+    }
+    let bad: Vec<String> = cases
+        .par_iter()
+        .filter_map(|&(a, b, c)| {
+            let r = crate::engine::guarded(|| {
+                let mut vt = build_vt(a, 2, Some(0));
+                let _ = vt.feed_str("x\x1b[3g\x1bH\x1b[?6h");
+                let _ = vt.resize(b, 2);
+                let _ = vt.feed_str("\x1bc");
+                let _ = vt.resize(c, 2);
+                let mut f = build_vt(b, 2, Some(0));
+                let _ = f.resize(c, 2);
+                let (mut ta, mut tb) = (vt.verif_state().tabs, f.verif_state().tabs);
+                ta.sort();
+                tb.sort();
+                if ta != tb {
+                    return Some(format!("tab stops {:?}, the fresh terminal's {:?}", ta, tb));
+                }
+                if vt.dump() != f.dump() {
+                    return Some("dump() differs".to_string());
+                }
+                for walk in ["\r\x1b[3Ia", "\x1b[999C\x1b[2Zb", "\r\t\t\tc\x1b[g\r\t\td"] {
+                    let _ = vt.feed_str(walk);
+                    let _ = f.feed_str(walk);
+                    if obs(&vt) != obs(&f) {
+                        return Some(format!("after {}: cursor {:?}, the fresh terminal's {:?}", esc(walk), obs(&vt).cursor, obs(&f).cursor));
+                    }
+                }
+                None
+            });
+            match r {
+                Ok(None) => None,
+                Ok(Some(d)) => Some(format!("{} columns resized to {}, ESC c, resized to {}: {}", a, b, c, d)),
+                Err(p) => Some(format!("{} -> {} -> ESC c -> {}: panic: {}", a, b, c, p)),
+            }
+        })
+        .collect();
+    let n_cases = cases.len() as u64;
+    rep.evaluations += n_cases;
+    rep.traces_validated += n_cases;
+    rep.transitions += n_cases * 3;
+    rep.parts.push(serde_json::json!({"part":"reset-then-resize","widths_up_to":n,"chains":n_cases,"violating":bad.len()}));
+    println!("part reset-then-resize: {} width chains, {} violating", n_cases, bad.len());
+    if let Some(d) = bad.first() {
+        emit_violation(ctx, rep, "C19", serde_json::json!({"part":"reset-then-resize","oracle":"ris-then-input","observed":d}));
+        rep.violations += bad.len() as u64 - 1;
+    }
+}
+
 pub fn run(ctx: &Ctx) -> Report {
     let mut rep = Report::new();
     let sa = Sys { conts: &conts_full };
@@ -472,6 +552,7 @@ pub fn run(ctx: &Ctx) -> Report {
     extreme_sizes(ctx, &mut rep);
     scrollback_configuration(ctx, &mut rep);
     heavy_history(ctx, &mut rep);
+    reset_then_resize(ctx, &mut rep);
     rep.rule = "BFS over op histories (same alphabet as C11 incl. truncated sequences and resizes); at EVERY distinct state ESC c is applied and the result compared with a freshly built terminal of the current size and limit: all of lines(), cursor, cursor-key mode, dump(), then again after each probe of the battery and after every feed op of the alphabet; plus the parser side: every string of <= 3/4 parameter, sub-parameter, marker, intermediate and final bytes after each of six introducers, then ESC c, then every continuation of the battery and 22 parameter-sensitive ones, compared with a fresh terminal given the continuation alone".into();
     rep.assumptions = vec!["equivalence is observational (public API) plus dump() equality".into()];
     rep
@@ -492,6 +573,12 @@ pub fn replay(ctx: &Ctx, v: &Value) -> bool {
             let mut rep = Report::new();
             let c2 = Ctx { id: ctx.id.clone(), tier, seed: 0, start: ctx.start, known: ctx.known.clone(), replay_dir: ctx.replay_dir.clone() };
             scrollback_configuration(&c2, &mut rep);
+            rep.violations > 0
+        }
+        "reset-then-resize" => {
+            let mut rep = Report::new();
+            let c2 = Ctx { id: ctx.id.clone(), tier, seed: 0, start: ctx.start, known: ctx.known.clone(), replay_dir: ctx.replay_dir.clone() };
+            reset_then_resize(&c2, &mut rep);
             rep.violations > 0
         }
         "heavy-history" => {
